@@ -7,6 +7,8 @@ KS = [0, 1, 2, 3, 10]
 
 def run(ck):
     infer.run_prop(ck, "C06", KS)
+    if ck.tier == "thorough":
+        infer.suite_as_workload(ck, "C06")
     # end to end: run -> store rows -> stub classes, through the real CLI (shared worker with C01)
     from vf import core
     from vf.props import c01
